@@ -1,3 +1,112 @@
 import PysphVerif.Driver.Common
-/-! Line-protocol driver for C18 (stub: not built yet). -/
-def main : IO Unit := PysphVerif.Driver.loopPure (fun _ => "bad-op")
+import PysphVerif.Model.Controller
+/-!
+Line protocol for C18:
+  `run cfg=<wcdr bits, e.g. 1011> progs=<ops,ops/ops,...|_> sched=<tid,tid,...|_>`
+ops: `g` get, `s<int>` blocking set, `qs<int>` queued set, `qd` queued probe,
+`r<k>` get_result of the k-th task, `p` pause_on_next, `w` wait, `c` cont.
+cfg bits: waitPred, contNested, dispatchNotifies, runBeforeWait.
+Answer: `<enabled>|<tid>:<ev+ev>;...;<enabled>|end <final state>`; a scheduled
+thread that is not enabled gives `<enabled>|stuck:<tid>` as the last step.
+-/
+namespace PysphVerif.Driver.C18
+open PysphVerif.Wire PysphVerif.Controller
+
+def parseOp (s : String) : Option Op :=
+  if s = "g" then some Op.get
+  else if s = "p" then some Op.pause
+  else if s = "w" then some Op.wait
+  else if s = "c" then some Op.cont
+  else if s = "qd" then some (Op.queue Cmd.probe)
+  else if s.startsWith "qs" then (parseInt? (s.drop 2).toString).map (fun v => Op.queue (Cmd.set v))
+  else if s.startsWith "s" then (parseInt? (s.drop 1).toString).map Op.setNow
+  else if s.startsWith "r" then (parseNat? (s.drop 1).toString).map Op.getResult
+  else none
+
+def parseProgs (s : String) : Option (List (List Op)) :=
+  if s = "_" then some [] else
+  (s.splitOn "/").mapM (fun p => if p = "" then some [] else (p.splitOn ",").mapM parseOp)
+
+def parseCfg (s : String) : Option Cfg :=
+  match s.toList with
+  | [a, b, c, d] =>
+    if [a, b, c, d].all (fun ch => ch = '0' || ch = '1') then
+      some ⟨a = '1', b = '1', c = '1', d = '1'⟩
+    else none
+  | _ => none
+
+def showLock : LockName → String
+  | LockName.d => "d" | LockName.res => "res" | LockName.p => "p" | LockName.q => "q"
+  | LockName.c k => s!"c{k}"
+
+def showTids (l : List Tid) : String :=
+  if l.isEmpty then "-" else ".".intercalate (l.map toString)
+
+def showOp : Op → String
+  | Op.get => "g" | Op.setNow v => s!"s{v}" | Op.queue (Cmd.set v) => s!"qs{v}"
+  | Op.queue Cmd.probe => "qd" | Op.getResult k => s!"r{k}"
+  | Op.pause => "p" | Op.wait => "w" | Op.cont => "c"
+
+def showRes : Res → String
+  | Res.v x => s!"v{x}" | Res.none => "none" | Res.k id => s!"k{id}" | Res.d n => s!"d{n}"
+  | Res.true => "true" | Res.err => "err" | Res.cp => "cp"
+
+def showEv : Ev → String
+  | Ev.acq l => "acq:" ++ showLock l
+  | Ev.rel l => "rel:" ++ showLock l
+  | Ev.wait l => "wait:" ++ showLock l
+  | Ev.reacq l => "reacq:" ++ showLock l
+  | Ev.ntf l w => "ntf:" ++ showLock l ++ ":" ++ showTids w
+  | Ev.nta l w => "nta:" ++ showLock l ++ ":" ++ showTids w
+  | Ev.start op => "start:" ++ showOp op
+  | Ev.done r => "done=" ++ showRes r
+  | Ev.progress => "progress"
+
+def enabledSet (cfg : Cfg) (s : State) (n : Nat) : List Tid :=
+  (List.range (n + 1)).filter (fun t => enabled cfg s t)
+
+def sortNat (l : List Nat) : List Nat := l.mergeSort (fun a b => a ≤ b)
+
+def showNats (l : List Nat) : String :=
+  if l.isEmpty then "_" else ",".intercalate (l.map toString)
+
+def showFinal (cfg : Cfg) (s : State) (n : Nat) : String :=
+  let fin := (List.range (n + 1)).filter
+    (fun t => t ≠ 0 && (s.th t).pc = IPc.idle && (s.th t).prog.isEmpty)
+  "end queue=" ++ showNats s.queue ++
+  " pause=" ++ showNats (sortNat s.pause) ++
+  " results=" ++ showNats (sortNat (s.results.map (·.1))) ++
+  " lockmap=" ++ showNats (sortNat s.lockmap) ++
+  " qdict=" ++ showNats (sortNat (s.qdict.map (·.1))) ++
+  s!" dt={s.dt} count={s.count}" ++
+  " exec=" ++ (if s.execLog.isEmpty then "_" else
+      ",".intercalate (s.execLog.map (fun e => s!"{e.1}@{e.2}"))) ++
+  " finished=" ++ showNats fin ++
+  " en=" ++ showTids (enabledSet cfg s n)
+
+def go (cfg : Cfg) (n : Nat) : State → List Tid → List String → List String
+  | s, [], acc => (showTids (enabledSet cfg s n) ++ "|" ++ showFinal cfg s n) :: acc
+  | s, t :: ts, acc =>
+    let en := showTids (enabledSet cfg s n)
+    match step cfg s t with
+    | none => (showTids (enabledSet cfg s n) ++ "|" ++ showFinal cfg s n) ::
+              (en ++ s!"|stuck:{t}") :: acc
+    | some (s', evs) =>
+      go cfg n s' ts ((en ++ s!"|{t}:" ++ "+".intercalate (evs.map showEv)) :: acc)
+
+def handle (line : String) : String :=
+  match tokens line with
+  | "run" :: rest =>
+    let kv := kvs rest
+    match (lookup kv "cfg") >>= parseCfg, (lookup kv "progs") >>= parseProgs,
+          (lookup kv "sched") >>= parseList? parseNat? with
+    | some cfg, some progs, some sched =>
+      let n := progs.length
+      if sched.any (fun t => t > n) then "bad-op" else
+      ";".intercalate (go cfg n (init (progsOf progs)) sched []).reverse
+    | _, _, _ => "bad-op"
+  | _ => "bad-op"
+
+end PysphVerif.Driver.C18
+
+def main : IO Unit := PysphVerif.Driver.loopPure PysphVerif.Driver.C18.handle
